@@ -56,16 +56,16 @@ type cfg struct {
 
 // probe is one RPC.
 type probe struct {
-	CSend   int  `json:"c_send"` // per-call MaxCallSendMsgSize, -1 unset
-	CRecv   int  `json:"c_recv"` // per-call MaxCallRecvMsgSize, -1 unset
-	ReqSize int  `json:"req_size"`
-	ReqPK   int  `json:"req_pk"` // 0 incompressible, 1 zeros
-	RspSize int  `json:"rsp_size"`
-	RspPK   int  `json:"rsp_pk"`
-	ReqWire bool `json:"req_wire"` // ReqSize is the targeted POST-compression size; the payload size is derived
-	RspWire bool `json:"rsp_wire"`
-	Unary   bool `json:"unary"` // cc.Invoke instead of NewStream
-	What    string `json:"what"` // which limit / delta the probe aims at (evidence only)
+	CSend   int    `json:"c_send"` // per-call MaxCallSendMsgSize, -1 unset
+	CRecv   int    `json:"c_recv"` // per-call MaxCallRecvMsgSize, -1 unset
+	ReqSize int    `json:"req_size"`
+	ReqPK   int    `json:"req_pk"` // 0 incompressible, 1 zeros
+	RspSize int    `json:"rsp_size"`
+	RspPK   int    `json:"rsp_pk"`
+	ReqWire bool   `json:"req_wire"` // ReqSize is the targeted POST-compression size; the payload size is derived
+	RspWire bool   `json:"rsp_wire"`
+	Unary   bool   `json:"unary"` // cc.Invoke instead of NewStream
+	What    string `json:"what"`  // which limit / delta the probe aims at (evidence only)
 }
 
 // ---- the reference model (from the statement) ----
@@ -221,10 +221,10 @@ func serviceConfig(c cfg) string {
 }
 
 type outcome struct {
-	P      probe  `json:"probe"`
-	Stage  string `json:"stage"`
-	L      string `json:"limits"`
-	Code   string `json:"code"`
+	P     probe  `json:"probe"`
+	Stage string `json:"stage"`
+	L     string `json:"limits"`
+	Code  string `json:"code"`
 }
 
 type result struct {
@@ -607,7 +607,7 @@ func genProbes(rng *rand.Rand, c cfg) []probe {
 
 func TestVerifC21(t *testing.T) {
 	r := vlib.Start(t, "C21")
-	n := r.N(192, 1920)
+	n := r.N(128, 1280)
 	if light() {
 		n = 12
 	}
@@ -647,7 +647,7 @@ func TestVerifC21(t *testing.T) {
 	}
 	r.Finish(vlib.Spec{
 		Level: "exploration",
-		Rule: "configurations: service config maxRequestMessageBytes / maxResponseMessageBytes (method, service or default name form) x dial default MaxCallSendMsgSize / MaxCallRecvMsgSize x server MaxSendMsgSize / MaxRecvMsgSize, each unset or a value drawn without replacement from {0,7,100,1000,3000,10000,20000,50000,70000}; the first 64 indices enumerate all set/unset combinations, x compression {none, gzip, vz-a}; per configuration all four per-call combinations (MaxCallSendMsgSize, MaxCallRecvMsgSize set/unset) and for each of the four effective limits L (client send, server receive, server send, client receive; the 4 MB default in 1/12 of the configurations) one RPC with a message of L-1, L, L+1 bytes in that direction — uncompressed, or with compression both an incompressible payload whose POST-compression size is L-1/L/L+1 and an all-zero payload whose decompressed size is L-1/L/L+1 — plus a tiny exchange and one with both directions exactly at their limits; unary (Invoke) and streaming APIs mixed. Reference: effective client limit = min(service config, per-call option else dial default) or the default (send MaxInt32, receive 4 MB); stages client-send (wire size) -> server-receive (wire or decompressed size) -> server-send (wire) -> client-receive (wire or decompressed). Oracles: status OK and intact payloads iff no stage stops the exchange, else RESOURCE_EXHAUSTED; the handler never receives a request stopped at client-send/server-receive; tapped wire: no request DATA when stopped at client-send, no response DATA when stopped before client-receive, every wire message <= its sender's limit and of the modelled size. non-trivial = every judged probe; distinct = (stopping stage, which source decided the client send / receive limit, server limits set, compression, probe aim)",
+		Rule:  "configurations: service config maxRequestMessageBytes / maxResponseMessageBytes (method, service or default name form) x dial default MaxCallSendMsgSize / MaxCallRecvMsgSize x server MaxSendMsgSize / MaxRecvMsgSize, each unset or a value drawn without replacement from {0,7,100,1000,3000,10000,20000,50000,70000}; the first 64 indices enumerate all set/unset combinations, x compression {none (indices 0-63), gzip (64-127), vz-a (128-191, thorough tier)}; per configuration all four per-call combinations (MaxCallSendMsgSize, MaxCallRecvMsgSize set/unset) and for each of the four effective limits L (client send, server receive, server send, client receive; the 4 MB default in 1/12 of the configurations) one RPC with a message of L-1, L, L+1 bytes in that direction — uncompressed, or with compression both an incompressible payload whose POST-compression size is L-1/L/L+1 and an all-zero payload whose decompressed size is L-1/L/L+1 — plus a tiny exchange and one with both directions exactly at their limits; unary (Invoke) and streaming APIs mixed. Reference: effective client limit = min(service config, per-call option else dial default) or the default (send MaxInt32, receive 4 MB); stages client-send (wire size) -> server-receive (wire or decompressed size) -> server-send (wire) -> client-receive (wire or decompressed). Oracles: status OK and intact payloads iff no stage stops the exchange, else RESOURCE_EXHAUSTED; the handler never receives a request stopped at client-send/server-receive; tapped wire: no request DATA when stopped at client-send, no response DATA when stopped before client-receive, every wire message <= its sender's limit and of the modelled size. non-trivial = every judged probe; distinct = (stopping stage, which source decided the client send / receive limit, server limits set, compression, probe aim)",
 		Assumptions: []string{
 			"a per-call option replaces the dial default option of the same kind (CallOption semantics); the statement's 'dial/call option limit' is read that way",
 			"the server answers in the request's encoding (documented default), so response wire sizes are post-compression sizes of the same compressor",
